@@ -148,6 +148,61 @@ func vh_C18_reuse() {
 	vxAssert(h.Size() == vxDigestLen(alg) && h.BlockSize() == vxBlock, "Size and BlockSize are those of the hash")
 }
 
+// vh_C18_script: longer Write/Sum/Reset scripts (5 quick / 6 thorough steps, chunks of 0..2 bytes) on an
+// object re-keyed once: state that an implementation keeps across Sum and Reset (a cached digest, a
+// "dirty" flag) only shows after several steps, e.g. Reset, Write, Sum, Reset, Sum.
+func vh_C18_script() {
+	alg := 0
+	key := vxBytes(3, 3)
+	hh := New(sha1.New, key)
+	h, isH := hh.(*hmac)
+	vxAssert(isH, "New returns the pooled implementation")
+	if vxChoose(2) == 1 {
+		// re-keyed after an earlier use with another key
+		h.Write(vxBytes(1, 1)) //nolint:errcheck
+		h.Reset()
+		key = vxBytes(2, 2)
+		h.resetTo(key)
+		vxReach("rekeyed")
+	}
+	text := make([]byte, 0, 16)
+	steps := 5
+	if vxThorough() {
+		steps = 6
+	}
+	for s := 0; s < steps; s++ {
+		switch vxChoose(3) {
+		case 0:
+			chunk := vxBytes(1, 1)
+			n, err := h.Write(chunk)
+			vxAssert(err == nil && n == 1, "Write consumes the chunk")
+			text = append(text, chunk...)
+			vxReach("write")
+		case 1:
+			vxCheckSumPlain(h, alg, key, text, "mid-script (long)")
+			vxReach("sum-then-continue")
+		default:
+			h.Reset()
+			text = text[:0]
+			vxReach("reset")
+		}
+	}
+	vxCheckSumPlain(h, alg, key, text, "final (long)")
+}
+
+// vxCheckSumPlain: Sum(nil) == HMAC(key, text)
+func vxCheckSumPlain(h hash.Hash, alg int, key, text []byte, what string) {
+	sum := h.Sum(nil)
+	want := refHMAC(alg, key, text)
+	dl := vxDigestLen(alg)
+	vxAssert(len(sum) == dl, what+": Sum(nil) returns one digest")
+	ok := true
+	for i := 0; i < dl && i < len(sum); i++ {
+		ok = ok && sum[i] == want[i]
+	}
+	vxAssert(ok, what+": Sum returns the RFC 2104 HMAC of the bytes written since the last reset")
+}
+
 // the pool entry points: Acquire on an empty pool (New) and on a pool holding a recycled object; Put.
 func vh_C18_pool() {
 	alg := vxChoose(2)
@@ -177,6 +232,50 @@ func vh_C18_pool() {
 		PutSHA1(h)
 	} else {
 		PutSHA256(h)
+	}
+}
+
+// vh_C18_two_live: "however many goroutines use the pool at once" — two pooled objects are live at the
+// same time (a second Acquire before the first Put, as two goroutines would do), used alternately, put
+// back and acquired again together: neither may see the other's key or bytes.
+func vh_C18_two_live() {
+	alg := vxChoose(2)
+	acquire := func(key []byte) hash.Hash {
+		if alg == 0 {
+			return AcquireSHA1(key)
+		}
+		return AcquireSHA256(key)
+	}
+	put := func(h hash.Hash) {
+		if alg == 0 {
+			PutSHA1(h)
+		} else {
+			PutSHA256(h)
+		}
+	}
+	for round := 0; round < 2; round++ {
+		// key lengths on both sides of the block size (every length: vh_C18_reuse / vh_C18_pool)
+		l1, l2 := []int{3, 65}[vxChoose(2)], []int{2, 66}[vxChoose(2)]
+		k1, k2 := vxBytes(l1, l1), vxBytes(l2, l2)
+		if l1 > vxBlock && l2 > vxBlock {
+			vxReach("two-long-keys")
+		}
+		h1 := acquire(k1)
+		c1 := vxBytes(2, 2)
+		h1.Write(c1) //nolint:errcheck
+		h2 := acquire(k2)
+		vxAssert(h1 != h2, "two live users never share one pooled object")
+		c2 := vxBytes(3, 3)
+		h2.Write(c2) //nolint:errcheck
+		c3 := vxBytes(1, 1)
+		h1.Write(c3) //nolint:errcheck
+		vxCheckSumPlain(h2, alg, k2, c2, "second of two live users")
+		vxCheckSumPlain(h1, alg, k1, append(append([]byte{}, c1...), c3...), "first of two live users")
+		put(h1)
+		put(h2)
+		if round == 1 {
+			vxReach("second-round")
+		}
 	}
 }
 
